@@ -3,7 +3,9 @@ package actionlint
 import (
 	"fmt"
 	"sort"
+	"strconv"
 	"strings"
+	"unicode"
 )
 
 // Types
@@ -241,6 +243,18 @@ func (ty *ObjectType) Loose() {
 	ty.Mapped = AnyType{}
 }
 
+// printablePropName returns the property name as-is when it consists of printable characters.
+// Otherwise it returns the quoted name. Property names come from user input (e.g. keys of matrix)
+// and may contain line breaks or control characters, which must not be put in error messages.
+func printablePropName(name string) string {
+	for _, r := range name {
+		if !unicode.IsPrint(r) {
+			return strconv.Quote(name)
+		}
+	}
+	return name
+}
+
 func (ty *ObjectType) String() string {
 	if !ty.IsStrict() {
 		if ty.IsLoose() {
@@ -264,7 +278,7 @@ func (ty *ObjectType) String() string {
 		} else {
 			b.WriteString("; ")
 		}
-		b.WriteString(p)
+		b.WriteString(printablePropName(p))
 		b.WriteString(": ")
 		b.WriteString(ty.Props[p].String())
 	}
